@@ -269,6 +269,62 @@ def hand_clamp(x: fp.Real, y: fp.Real, xs: list[fp.Real], k: fp.Real):
         c = a + b
         d = min(max(x, 0), 1) * 1
     return (a, b, c, d)''',
+    'hand_underflow1': '''@fp.fpy
+def hand_underflow1(x: fp.Real, y: fp.Real, xs: list[fp.Real], k: fp.Real):
+    a = x * 0.0078125
+    return a''',
+    'hand_underflow2': '''@fp.fpy
+def hand_underflow2(x: fp.Real, y: fp.Real, xs: list[fp.Real], k: fp.Real):
+    b = y * 0.001953125
+    return b''',
+    'hand_underflow3': '''@fp.fpy
+def hand_underflow3(x: fp.Real, y: fp.Real, xs: list[fp.Real], k: fp.Real):
+    c = x * 0.03125
+    d = c + y * 0.015625
+    return (c, d)''',
+    'hand_overflow_sub': '''@fp.fpy
+def hand_overflow_sub(x: fp.Real, y: fp.Real, xs: list[fp.Real], k: fp.Real):
+    a = x - 12
+    b = y * -3
+    return (a, b)''',
+    'hand_overflow_mul': '''@fp.fpy
+def hand_overflow_mul(x: fp.Real, y: fp.Real, xs: list[fp.Real], k: fp.Real):
+    c = x * 512
+    return c''',
+    'hand_overflow_neg': '''@fp.fpy
+def hand_overflow_neg(x: fp.Real, y: fp.Real, xs: list[fp.Real], k: fp.Real):
+    d = 0 - abs(y) * 4
+    return d''',
+    'hand_call_loop': '''@fp.fpy
+def hand_cl_ident(t: fp.Real) -> fp.Real:
+    return t
+
+@fp.fpy
+def hand_cl_dbl(t: fp.Real) -> fp.Real:
+    with fp.REAL:
+        r = t + t
+    return r
+
+@fp.fpy
+def hand_call_loop(x: fp.Real, y: fp.Real, xs: list[fp.Real], k: fp.Real):
+    t = 0
+    a = 0
+    for _ in range(3):
+        a = hand_cl_ident(t)
+        t = x
+    u = y
+    with fp.REAL:
+        for _ in range(k):
+            u = hand_cl_dbl(u)
+    i = 0
+    w = 0
+    b = 0
+    while i < k:
+        b = hand_cl_ident(w)
+        with fp.REAL:
+            w = w + y
+            i = i + 1
+    return (a, u, b)''',
     'hand_abs': '''@fp.fpy
 def hand_abs(x: fp.Real, y: fp.Real, xs: list[fp.Real], k: fp.Real):
     a = abs(x)
